@@ -174,6 +174,19 @@ def build():
     # TryFrom<Record>: ttl = [ext_rcode, version, flags_hi, flags_lo]
     one(r"let\s*\[\s*ext_rcode\s*,\s*version\s*,\s*flags_hi\s*,\s*flags_lo\s*\]\s*=\s*value\.ttl\.value\.get\(\)\.to_be_bytes\(\)", ed, "TryFrom<Record> for EdnsRecord: ttl octet order")
     one(r"u32::from_be_bytes\(\s*\[\s*value\.ext_rcode\s*,\s*value\.version\s*,\s*flags_hi\s*,\s*flags_lo\s*,?\s*\]\s*\)", ed, "From<EdnsRecord> for Record: ttl octet order")
+    # MessageParser::next: sections, counts, the EDNS special case, fusing
+    mp = strip_comments(read("src/new/base/parse/message.rs"))
+    nx = fn_body(mp, "next", after="impl<'a> Iterator for MessageParser<'a>")
+    one(r"^\s*while\s+self\.remaining_items\s*==\s*0\s*\{\s*if\s+self\.section\s*<\s*3\s*\{\s*self\.section\s*\+=\s*1\s*;\s*let\s+counts\s*=\s*self\.message\.header\.counts\s*;\s*let\s+count\s*=\s*counts\.as_array\(\)\[self\.section\s+as\s+usize\]\s*;\s*self\.remaining_items\s*=\s*count\.get\(\)\s*;\s*\}\s*else\s*\{\s*return\s+None\s*;\s*\}\s*\}", nx, "MessageParser::next begins with the section/count bookkeeping (no earlier exit)")
+    one(r"self\.remaining_items\s*-=\s*1\s*;\s*let\s+remaining\s*=\s*&self\.message\.contents\[self\.offset\.\.\]\s*;", nx, "MessageParser::next consumes one announced item")
+    m = one(r"(\d)\s+if\s+remaining\.starts_with\(\s*&\[\s*0\s*,\s*0\s*,\s*41\s*\]\s*\)\s*=>\s*\{?\s*parse_variant\(self,\s*MessageItem::Edns\)", nx, "MessageParser::next EDNS arm")
+    defs.append(("mp_edns_section", "N", N(int(m.group(1)))))
+    arms = re.findall(r"(\d)\s*=>\s*parse_variant\(self,\s*MessageItem::(\w+)\)", nx)
+    if arms != [("0", "Question"), ("1", "Answer"), ("2", "Authority"), ("3", "Additional")]:
+        raise GenError("MessageParser::next section arms: %r" % (arms,))
+    one(r"if\s+item\.is_err\(\)\s*\{\s*self\.section\s*=\s*3\s*;\s*self\.remaining_items\s*=\s*0\s*;\s*\}\s*Some\(item\)", nx, "MessageParser::next fuses on error")
+    fm = fn_body(mp, "for_message", after="impl<'a> MessageParser<'a>")
+    one(r"offset\s*:\s*0\s*,\s*section\s*:\s*0\s*,\s*remaining_items\s*:\s*message\.header\.counts\.questions\.get\(\)", fm, "MessageParser::for_message initial state")
     # the old codec's view of the same octets: OptRecord::from_record
     oo = strip_comments(read("src/base/opt/mod.rs"))
     fr = fn_body(oo, "from_record", after="impl<Octs> OptRecord<Octs>")
